@@ -148,10 +148,12 @@ class C09(Prop):
         "AwProofs.C09.isect_unreachable_branch_dead",
         "AwProofs.C09.isect_total_duration",
         "AwProofs.C09.isect_common_time",
+        "AwProofs.C09.isect_total_duration_measure",
         "AwProofs.C09.union_never_raises",
         "AwProofs.C09.union_sorted_gapped",
         "AwProofs.C09.union_cover",
         "AwProofs.C09.union_dataless",
+        "AwProofs.C09.union_total_duration",
     ]
     TRUSTED = [
         "the timeslot library (third party, site-packages/timeslot/timeslot.py) is modelled from its source; its four methods are compared with the model on a grid of slot pairs incl. start > end on every run",
@@ -168,8 +170,8 @@ class C09(Prop):
     LEVEL_TEXT = (
         "Machine-checked Lean 4 theorems over a branch-for-branch model of filter_period_intersect.py and of "
         "Timeslot.contains/intersection/gap/union: isect_sound, isect_complete, isect_no_double, "
-        "isect_unreachable_branch_dead, isect_total_duration for all pairs of internally non-overlapping event lists "
-        "in any order; union_never_raises, union_sorted_gapped, union_cover, union_dataless for arbitrary lists "
+        "isect_unreachable_branch_dead, isect_total_duration, isect_common_time, isect_total_duration_measure for all pairs of internally non-overlapping event lists "
+        "in any order; union_never_raises, union_sorted_gapped, union_cover, union_dataless, union_total_duration for arbitrary lists "
         "with durations >= 0; the model is compared with the real functions on an exhaustive placement grid and "
         "random lists on every run"
     )
